@@ -1,6 +1,6 @@
 SPECIFICATION Spec
 CONSTANTS
-  Cases <- MCCases
+  Cases <- MCCasesSmall
   Export = FALSE
   Dev_S8_NegIndex = FALSE
   Dev_S4_ExtDataNoRecord = TRUE
